@@ -263,6 +263,27 @@ class FromDAOState:
             else:
                 setattr(result, key, self.memo.get(id(value)))
 
+    def replace_placeholder(self, placeholder: Any, final_object: Any) -> None:
+        """
+        Replace the references to a placeholder that objects converted so far hold. While an alternatively mapped DAO
+        is converted, the objects that refer back to it receive its mapping instance as placeholder; the object that
+        the mapping creates only exists afterwards.
+
+        :param placeholder: The mapping instance that was handed out while the conversion was in progress.
+        :param final_object: The object created from the mapping.
+        """
+        for converted in list(self.memo.values()):
+            attributes = getattr(converted, "__dict__", None)
+            if not attributes:
+                continue
+            for name, value in list(attributes.items()):
+                if value is placeholder:
+                    setattr(converted, name, final_object)
+                elif isinstance(value, list):
+                    for index, element in enumerate(value):
+                        if element is placeholder:
+                            value[index] = final_object
+
 
 class HasGeneric(Generic[T]):
 
@@ -693,8 +714,10 @@ class DataAccessObject(HasGeneric[T]):
         self._apply_circular_fixes(result, circular_refs, state)
 
         if isinstance(result, AlternativeMapping):
-            result = result.create_from_dao()
+            placeholder = result
+            result = placeholder.create_from_dao()
             state.memo[id(self)] = result
+            state.replace_placeholder(placeholder, result)
 
         del state.in_progress[id(self)]
         return result
